@@ -21,9 +21,83 @@ def instantiate_template():
     for n in C.ESIZES:
         out += body.replace("@N@", str(n))
     out += b
+    a, rest = out.split("//@INT-BEGIN\n", 1)
+    body, b = rest.split("//@INT-END\n", 1)
+    out = a + "".join(body.replace("@T@", t) for t in INT_TYPES) + b
+    out = out.replace("//@INT-DISPATCH", "\n\t".join('case "%s":\n\t\treturn typed_%s(f)' % (t, t) for t in INT_TYPES))
     out = out.replace("//@RESET-ALL", "\n\t\t".join("reset%d()" % n for n in C.ESIZES))
     out = out.replace("//@DISPATCH", "\n\t\t".join("case %d:\n\t\t\treturn handle%d(f)" % (n, n) for n in C.ESIZES))
     return out
+
+
+INT_TYPES = {"int8": (8, True), "int16": (16, True), "int32": (32, True), "int64": (64, True), "int": (64, True),
+             "uint8": (8, False), "uint16": (16, False), "uint32": (32, False), "uint64": (64, False), "uint": (64, False),
+             "uintptr": (64, False)}
+B_LEN, B_CAP, Z_LEN, Z_CAP = 40000, 70000, 3000000000, 4300000000
+
+
+def typed_values(t, limit):
+    """boundary values of integer type t that are interesting as a bound: top bit set for narrow unsigned types,
+    negatives for signed ones, both ends of the range; `limit` caps what is useful for the base in question"""
+    w, signed = INT_TYPES[t]
+    if signed:
+        vs = [0, 1, 2, 5, 100, (1 << (w - 1)) - 1, (1 << (w - 1)) - 2, -1, -5, -(1 << (w - 1))]
+    else:
+        vs = [0, 1, 2, 5, 100, (1 << (w - 1)) - 1, 1 << (w - 1), (1 << (w - 1)) + 5, (1 << w) - 56, (1 << w) - 1]
+    vs += [limit, limit - 1, limit + 1, limit // 2]
+    lo, hi = (-(1 << (w - 1)), (1 << (w - 1)) - 1) if signed else (0, (1 << w) - 1)
+    return sorted(set(v for v in vs if lo <= v <= hi))
+
+
+def gen_typed_lines(rng, quick):
+    """`ty <type> <kind> a b c` lines: slice bounds, make len/cap, copy/append counts, unsafe.Slice/String lengths with
+    operands of every integer type.  Everything here is fixed by the Go spec: judged against the Go-built program."""
+    ls = []
+    for t in INT_TYPES:
+        vb = typed_values(t, B_CAP)
+        vl = typed_values(t, B_LEN)
+        vz = typed_values(t, Z_CAP) + [v for v in typed_values(t, Z_LEN) if v > 0]
+
+        def tri(vals, n):
+            out = []
+            for _ in range(n):
+                x = sorted(rng.choice(vals) for _ in range(3))
+                if rng.random() < 0.2:
+                    rng.shuffle(x)
+                out.append(x)
+            return out
+        # every single value as each kind of bound (this is where a wrong extension shows)
+        for v in vb:
+            ls.append("ty %s relo %d" % (t, v))
+            ls.append("ty %s rehi 0 %d" % (t, v))
+            ls.append("ty %s rehi3 0 %d %d" % (t, v, v))
+            ls.append("ty %s re3 %d %d %d" % (t, v, v, v))
+            ls.append("ty %s srelo %d" % (t, v))
+            ls.append("ty %s srehi 0 %d" % (t, v))
+            if v <= B_CAP:
+                ls.append("ty %s mk1 %d" % (t, v))
+                ls.append("ty %s mk2 %d %d" % (t, min(v, 3) if v >= 0 else v, v))
+                ls.append("ty %s mk2 %d %d" % (t, v, B_CAP if INT_TYPES[t][0] > 16 else v))
+                ls.append("ty %s cp %d %d" % (t, v, max(0, v // 2)))
+                if v <= B_LEN:
+                    ls.append("ty %s ap %d" % (t, v))
+                if v >= 0:          # negative / oversized lengths of unsafe.Slice are C03's subject (mandated panic)
+                    ls.append("ty %s us %d" % (t, v))
+                    ls.append("ty %s ustr %d" % (t, v))
+        for v in vz:
+            ls.append("ty %s zrelo %d" % (t, v))
+            ls.append("ty %s zrehi 0 %d" % (t, v))
+            ls.append("ty %s zre3 %d %d %d" % (t, v, v, v))
+            ls.append("ty %s zmk1 %d" % (t, v))
+            ls.append("ty %s zmk2 %d %d" % (t, min(v, 7) if v >= 0 else v, v))
+        for (a, b, c) in tri(vb + vl, 12 if quick else 120):
+            ls.append("ty %s re3 %d %d %d" % (t, a, b, c))
+            ls.append("ty %s re2 %d %d" % (t, a, b))
+            ls.append("ty %s sre2 %d %d" % (t, a, b))
+        for (a, b, c) in tri(vz, 8 if quick else 80):
+            ls.append("ty %s zre3 %d %d %d" % (t, a, b, c))
+            ls.append("ty %s zre2 %d %d" % (t, a, b))
+    return ls
 
 
 def go_quote(s):
@@ -72,7 +146,8 @@ def run_e2e(ctx, rng, quick):
     string_lines = [l for l in string_lines if not l.startswith("dec ")]     # decoderune is not callable from Go
     only = [gen_e2e_only(rng) for _ in range(200 if quick else 2000)]
     flat = [l for _, ls in scripts for l in ls] + ["reset"] + string_lines
-    all_lines = flat + [l for l, _ in only]
+    typed = gen_typed_lines(rng, quick)
+    all_lines = flat + [l for l, _ in only] + typed
     d = os.path.join(ctx.scratch, "e2e-c05")
     e2e.write_module(d, {"main.go": instantiate_template(),
                          "script.go": "package main\n\nconst script = " + go_quote("\n".join(all_lines)) + "\n"})
@@ -101,7 +176,13 @@ def run_e2e(ctx, rng, quick):
         ctx.report_broken("C05 spec validation (GoRef vs Go toolchain)", {"lines": bad_ref})
 
     modeld = os.path.join(LEAN, ".lake", "build", "bin", "modeld_c05")
-    cov = {"e2e_lines": len(all_lines), "e2e_builds": 0, "e2e_opt_levels": [], "e2e_spec_validation_failures": bad_ref}
+    t_base = len(flat) + len(only)
+    t_ok = sum(1 for j in range(len(typed)) if ref_out[t_base + j].startswith("ok"))
+    t_bad = [typed[j] for j in range(len(typed)) if ref_out[t_base + j] == "bad-op"]
+    if t_bad or t_ok < len(typed) // 4:
+        raise RuntimeError("typed-operand section of the e2e interpreter is off: %d ok of %d, bad-op: %s" % (t_ok, len(typed), t_bad[:3]))
+    cov = {"e2e_typed_operand_lines": len(typed), "e2e_typed_ok_in_go": t_ok, "e2e_typed_panic_in_go": len(typed) - t_ok,
+           "e2e_lines": len(all_lines), "e2e_builds": 0, "e2e_opt_levels": [], "e2e_spec_validation_failures": bad_ref}
     for opt in ("-O0", "-O2"):
         out_bin = os.path.join(d, "prog%s.bin" % opt)
         p = e2e.llgo_build(ctx, d, out_bin, opt=opt)
@@ -143,6 +224,23 @@ def run_e2e(ctx, rng, quick):
                 ctx.broken.append("spec validation: Go toolchain gives %s for `%s`, expected %s" % (b, l, want))
             if a != b:
                 sfail.setdefault(l.split()[0], []).append((l, a, b))
+        # bounds / lengths / counts given as operands of every integer type: everything is fixed by Go
+        tfail = {}
+        for j, l in enumerate(typed):
+            a, b = outs[t_base + j], ref_out[t_base + j]
+            if a != b:
+                f = l.split()
+                tfail.setdefault((f[2], f[1]), []).append((l, a, b))
+        by_kind = {}
+        for (kind, ty), lst in tfail.items():
+            by_kind.setdefault(kind, []).extend(lst)
+        for kind in sorted(by_kind):
+            lst = sorted(by_kind[kind], key=lambda x: (len(x[0]), x[0]))
+            l, a, b = lst[0]
+            ctx.report(label + "typed:%s:%s" % (kind, l), "llgo %s: `%s` (bound/length operand of type %s) gives `%s`, Go toolchain: `%s` (%d lines of this kind differ, types: %s)"
+                       % (opt, l, l.split()[1], a, b, len(lst), ",".join(sorted(set(x[0].split()[1] for x in lst)))),
+                       {"line": l, "llgo": a, "go": b, "opt": opt, "differing_lines_of_this_kind": [x[0] for x in lst[:40]]})
+        spec_fail += sum(len(v) for v in by_kind.values())
         for op in sorted(sfail):
             lst = sorted(sfail[op], key=lambda x: len(x[0]))
             l, a, b = lst[0]
